@@ -1,6 +1,7 @@
 package shapes
 
 import (
+	"fmt"
 	"strings"
 )
 
@@ -70,7 +71,7 @@ func addMember(a *ZArchive, m ZMember) {
 // before relic sees it).
 func ZipHazards() []ZipHazard {
 	nameOf := func(n int) string { return strings.Repeat("n", n-4) + ".bin" }
-	return []ZipHazard{
+	out := []ZipHazard{
 		{Name: "canonical", Apply: func(a *ZArchive) {}},
 		{Name: "all-deflated", Apply: func(a *ZArchive) {
 			for i := range a.Members {
@@ -180,6 +181,97 @@ func ZipHazards() []ZipHazard {
 			a.Members = append([]ZMember{a.Members[n-1]}, a.Members[:n-1]...)
 		}},
 	}
+	// JAR manifest line-length boundaries: "No line may be longer than 72 bytes"
+	// (JAR File Specification, Name-Value pairs and Sections), read with or
+	// without the two-byte line end: a writer breaks a header line after 70 or
+	// after 72 bytes and every continuation line (one leading space) after 69 or
+	// 71 more. Header lines ("Name: value") of every length from one below the
+	// first of these places to one above the last, for the first and for the
+	// second break, once as a main attribute and once as the Name of a
+	// per-entry section that carries a non-digest attribute.
+	for _, h := range ManifestLineLengths() {
+		h := h
+		out = append(out,
+			ZipHazard{Name: fmt.Sprintf("manifest-main-attribute-line-of-%d-bytes", h), Only: "jar", Apply: func(a *ZArchive) {
+				i := manifestIndex(a)
+				key := fmt.Sprintf("X-Line-Of-%d-Bytes: ", h)
+				d := string(a.Members[i].Data)
+				eol := firstLineEnd(d)
+				line := FoldManifestLine(key+positional(h-len(key)), eol)
+				if k := strings.Index(d, eol+eol); k >= 0 { // end of the main section
+					a.Members[i].Data = []byte(d[:k+len(eol)] + line + d[k+len(eol):])
+				} else {
+					a.Members[i].Data = []byte(strings.TrimRight(d, "\r\n") + eol + line + eol)
+				}
+			}},
+			ZipHazard{Name: fmt.Sprintf("manifest-entry-name-line-of-%d-bytes", h), Only: "jar", Apply: func(a *ZArchive) {
+				name := "d/" + positional(h-len("Name: ")-2)
+				addMember(a, ZMember{Name: name, Data: []byte("member with a long name")})
+				i := manifestIndex(a)
+				d := string(a.Members[i].Data)
+				eol := firstLineEnd(d)
+				a.Members[i].Data = []byte(strings.TrimRight(d, "\r\n") + eol + eol + FoldManifestLine("Name: "+name, eol) + "Content-Type: text/plain" + eol + eol)
+			}})
+	}
+	return out
+}
+
+// ManifestLineLengths: the header line lengths around the first (70 | 72) and
+// second (70+69 | 72+71) line break of a JAR manifest writer.
+func ManifestLineLengths() []int {
+	var out []int
+	for h := 69; h <= 73; h++ {
+		out = append(out, h)
+	}
+	for h := 138; h <= 144; h++ {
+		out = append(out, h)
+	}
+	return out
+}
+
+// firstLineEnd returns the line end (CR LF, LF or CR) of the first line of d.
+func firstLineEnd(d string) string {
+	switch i := strings.IndexAny(d, "\r\n"); {
+	case i < 0:
+		return "\r\n"
+	case d[i] == '\n':
+		return "\n"
+	case i+1 < len(d) && d[i+1] == '\n':
+		return "\r\n"
+	}
+	return "\r"
+}
+
+// positional returns n bytes in which every position is recognisable (a
+// dropped, doubled or moved byte changes the string).
+func positional(n int) string {
+	b := make([]byte, n)
+	for i := range b {
+		b[i] = "abcdefghijklmnopqrstuvwxyz0123456789"[(i+i/36)%36]
+	}
+	return string(b)
+}
+
+// FoldManifestLine writes one header line the way the specification allows it
+// in every reading: at most 70 bytes before the line end, continuation lines
+// start with one space.
+func FoldManifestLine(line, eol string) string {
+	var sb strings.Builder
+	for i := 0; i < len(line); {
+		n := 70
+		if i > 0 {
+			sb.WriteByte(' ')
+			n = 69
+		}
+		j := i + n
+		if j > len(line) {
+			j = len(line)
+		}
+		sb.WriteString(line[i:j])
+		sb.WriteString(eol)
+		i = j
+	}
+	return sb.String()
 }
 
 func manifestIndex(a *ZArchive) int {
